@@ -544,6 +544,9 @@ def accept(repo):
             f.write(text)
 
 
+from . import frag_l6  # noqa: E402,F401  (registers the L6 fragments: inventory, l6_flags, imports)
+
+
 if __name__ == "__main__":
     repo = sys.argv[2] if len(sys.argv) > 2 else "/repo"
     if sys.argv[1] == "accept":
